@@ -58,7 +58,7 @@ typedef struct tmr {
 typedef struct ttrial {
 	tmr_t *tm; int n;
 	dispatch_queue_t qs[3];
-	_Atomic uint64_t must_fire_done, cancel_done, after_done, fires_total, rearms, rearms_suspended, rearms_from_target, early;
+	_Atomic uint64_t must_fire_done, cancel_done, after_done, fires_total, rearms, rearms_suspended, rearms_from_target, clock_switches, early;
 	uint64_t salt;
 	vf_profile_t prof;
 } ttrial_t;
@@ -68,6 +68,12 @@ static clockid_t clk_id(int k) { return k == VF_CLK_WALL ? CLOCK_REALTIME : k ==
 /* program (or re-program) a timer; returns decoded start */
 static void program_timer(tmr_t *m, vf_rng_t *r, int allow_never)
 {
+	/* replacing the settings may also move the timer to another clock (a plain TIMER source allows it):
+	 * the timer then changes heaps inside the library */
+	if (m->gen >= 1 && vf_rnd_n(r, 3) == 0) {
+		int nc = (int)vf_rnd_n(r, 3);
+		if (nc != m->clk) { m->clk = nc; atomic_fetch_add_explicit(&m->t->clock_switches, 1, memory_order_relaxed); }
+	}
 	uint32_t c = vf_rnd_n(r, 100);
 	int64_t delta;
 	if (c < 8) delta = -(int64_t)vf_rnd_range(r, 1000, 2000000);          /* already past */
@@ -293,6 +299,7 @@ static void run_trial(int idx)
 	vf_count("timer_fires", atomic_load(&t->fires_total));
 	vf_count("rearms_from_handler", atomic_load(&t->rearms));
 	vf_count("rearms_while_suspended", atomic_load(&t->rearms_suspended));
+	vf_count("rearms_switching_clock", atomic_load(&t->clock_switches));
 	vf_count("rearms_from_serial_target_item", atomic_load(&t->rearms_from_target));
 	vf_count("dispatch_after_blocks", (uint64_t)na);
 	vf_count("items", atomic_load(&t->fires_total) + (uint64_t)na);
